@@ -706,7 +706,7 @@ package app
 // ---- C20: structural invariant of the daemon object (assumed at entry in the sweep) -----------------------------
 // Holds once NewApp, connectDCS and newDBCluster have succeeded, which Run checks before it starts any loop.
 //@ define timingsOK(t *Timings) = t.m != nil && has(t.m, NodeFailedAt) && t.m[NodeFailedAt] != nil && has(t.m, StreamFromFailedAt) && t.m[StreamFromFailedAt] != nil && has(t.m, MasterStuckAt) && t.m[MasterStuckAt] != nil && has(t.m, ZKHALost) && t.m[ZKHALost] != nil
-//@ define appOK(app *App) = app.config != nil && app.logger != nil && app.t != nil && timingsOK(app.t) && app.dcs != nil && app.appDCS != nil && app.cluster != nil && clusterOK(app.cluster) && app.switchHelper != nil && app.replRepairState != nil && app.slaveReadPositions != nil
+//@ define appOK(app *App) = app.config != nil && app.logger != nil && app.t != nil && timingsOK(app.t) && app.dcs != nil && app.appDCS != nil && app.cluster != nil && clusterOK(app.cluster) && app.switchHelper != nil && app.replRepairState != nil && app.slaveReadPositions != nil && app.externalReplication != nil && app.offlineModeFilter != nil
 //@ typeinv *app.Timings timingsOK init app.NewTimings
 //@ typeinv *app.App appOK init app.NewApp, (*app.App).connectDCS, (*app.App).newDBCluster
 
@@ -739,3 +739,91 @@ package app
 //@ typeinv *app.appDCS appDCSOK init app.NewAppDCS
 //@ define azFilterOK(f *azLimitedOfflineFilter) = f.logger != nil
 //@ typeinv *app.azLimitedOfflineFilter azFilterOK init app.NewOfflineModeFilter
+
+// ---- C20: [safety] preconditions of the manager-loop functions ---------------------------------------------------------
+// optOK: the optimisation module exists (created by stateFirstRun, which Run executes before any other handler).
+//@ define optOK(app *App) = app.optSyncer != nil && app.optController != nil
+//@ define listOK(cs map[string]*nodestate.NodeState, nodes []string) = forall i int :: in_range(i, nodes) ==> cs[nodes[i]] != nil
+
+//@ func (*app.App).repairOfflineMode
+//@   requires c20 [safety]: statesOK(app, clusterState) && clusterState[master] != nil && optOK(app)
+//@ func (*app.App).repairMasterOfflineMode
+//@   requires c20 [safety]: regd(app.cluster, host)
+//@ func (*app.App).repairSlaveOfflineMode
+//@   requires c20 [safety]: regd(app.cluster, host) && masterNode != nil && statesOK(app, clusterState) && pendingOfflineByAZ != nil && optOK(app)
+//@ func (*app.App).repairCluster
+//@   requires c20 [safety]: statesOK(app, clusterState) && statesOK(app, clusterStateDcs) && clusterState[master] != nil && clusterStateDcs[master] != nil && optOK(app)
+//@ func (*app.App).repairMasterNode
+//@   requires c20 [safety]: masterNode != nil && statesOK(app, clusterState) && statesOK(app, clusterStateDcs) && clusterState[masterNode.host] != nil && clusterStateDcs[masterNode.host] != nil
+//@ func (*app.App).repairReadOnlyOnMaster
+//@   requires c20 [safety]: masterNode != nil && masterState != nil
+//@ func (*app.App).repairSlaveNode
+//@   requires c20 [safety]: statesOK(app, clusterState) && clusterState[master] != nil && optOK(app)
+//@ func (*app.App).repairCascadeNode
+//@   requires c20 [safety]: statesOK(app, clusterState) && clusterState[master] != nil && optOK(app)
+//@ func (*app.App).findBestStreamFrom
+//@   requires c20 [safety]: node != nil && statesOK(app, clusterState) && clusterState[node.host] != nil && clusterState[master] != nil
+//@ func (*app.App).performChangeMaster
+//@   requires c20 [safety]: regd(app.cluster, host)
+//@ func (*app.App).TryRepairReplication
+//@   requires c20 [safety]: node != nil && regd(app.cluster, node.host) && optOK(app)
+//@ func (*app.App).calcActiveNodes
+//@   requires c20 [safety]: statesOK(app, clusterState) && clusterState[master] != nil
+//@ func (*app.App).calcActiveNodesChanges
+//@   requires c20 [safety]: statesOK(app, clusterState) && clusterState[master] != nil && listOK(clusterState, activeNodes)
+//@ func (*app.App).updateActiveNodes
+//@   requires c20 [safety]: statesOK(app, clusterState) && statesOK(app, clusterStateDcs) && clusterState[master] != nil && optOK(app)
+//@ func (*app.App).canShrinkActiveNodes
+//@   requires c20 [safety]: masterNode != nil
+//@ func (*app.App).disableSemiSyncOnSlaves
+//@   requires c20 [safety]: (forall i int :: in_range(i, becomeInactive) ==> regd(app.cluster, becomeInactive[i])) && (forall i int :: in_range(i, becomeDataLag) ==> regd(app.cluster, becomeDataLag[i])) && optOK(app)
+//@ func (*app.App).disableSemiSyncOnSlave
+//@   requires c20 [safety]: regd(app.cluster, host)
+//@ func (*app.App).enableSemiSyncOnSlave
+//@   requires c20 [safety]: regd(app.cluster, host)
+//@ func (*app.App).performSwitchover
+//@   requires c20 [safety]: statesOK(app, clusterState) && clusterState[oldMaster] != nil && listOK(clusterState, activeNodes) && optOK(app)
+//@ func (*app.App).performSwitchover$1
+//@   requires c20 [safety]: clusterState[host] != nil && regd(app.cluster, host)
+//@ func (*app.App).performSwitchover$2
+//@   requires c20 [safety]: clusterState[host] != nil && regd(app.cluster, host)
+//@ func (*app.App).performSwitchover$3
+//@   requires c20 [safety]: clusterState[host] != nil && regd(app.cluster, host)
+//@ func (*app.App).getNodePositions$1
+//@   requires c20 [safety]: regd(app.cluster, host)
+//@ func (*app.App).getNodePositions
+//@   requires c20 [safety]: forall i int :: in_range(i, activeNodes) ==> regd(app.cluster, activeNodes[i])
+//@ func (*app.App).waitForCatchUp
+//@   requires c20 [safety]: node != nil && gtidset != nil
+//@ func (*app.App).CheckAsyncSwitchAllowed
+//@   requires c20 [safety]: node != nil && switchover != nil
+//@ func (*app.App).stopActiveNodeOptimization
+//@   requires c20 [safety]: regd(app.cluster, oldMaster) && (forall i int :: in_range(i, activeNodes) ==> regd(app.cluster, activeNodes[i])) && optOK(app)
+//@ func (*app.App).optimizationPhase
+//@   requires c20 [safety]: optOK(app) && statesOK(app, clusterState) && listOK(clusterState, activeNodes)
+//@ func (*app.App).checkHAReplicasRunning$1
+//@   requires c20 [safety]: regd(app.cluster, host) && local != nil
+//@ func (*app.App).enterMaintenance
+//@   requires c20 [safety]: regd(app.cluster, master)
+//@ func (*app.App).leaveMaintenance
+//@   requires c20 [safety]: optOK(app)
+//@ func (*app.App).tryLeaveMaintenance
+//@   requires c20 [safety]: optOK(app)
+//@ func (*app.App).stateMaintenance
+//@   requires c20 [safety]: optOK(app)
+//@ func (*app.App).stateManager
+//@   requires c20 [safety]: optOK(app)
+//@ func (*app.App).stateCandidate
+//@   requires c20 [safety]: optOK(app)
+//@ func (*app.App).stateLost
+//@   requires c20 [safety]: optOK(app)
+//@ func (*app.App).stateFirstRun
+//@   ensures C20.opt_ready [C20]: optOK(app)
+//@ func (*app.App).repairExternalReplication
+//@   requires c20 [safety]: masterNode != nil
+//@ func app.StartSlaveAlgorithm
+//@   requires c20 [safety]: app != nil && appOK(app) && node != nil
+//@ func app.ResetSlaveAlgorithm
+//@   requires c20 [safety]: app != nil && appOK(app) && node != nil
+//@ func app.ChangeSourceAlgorithm
+//@   requires c20 [safety]: app != nil && appOK(app) && node != nil
